@@ -17,7 +17,7 @@ use poulpy_core::api::*;
 use poulpy_core::layouts::*;
 use poulpy_bin_fhe::blind_rotation::{BlindRotationKey, BlindRotationKeyEncryptSk, BlindRotationKeyLayout, BlindRotationKeyPrepared, CGGI, LookUpTableLayout, LookupTable};
 use poulpy_bin_fhe::bdd_arithmetic::tests::test_suite::TestContext;
-use poulpy_bin_fhe::bdd_arithmetic::{Cmux, FheUint, FheUintPrepare, FheUintPrepared, GetGGSWBit};
+use poulpy_bin_fhe::bdd_arithmetic::{Add, Cmux, ExecuteBDDCircuit, FheUint, FheUintPrepare, FheUintPrepared, GetGGSWBit, Slt};
 use poulpy_bin_fhe::circuit_bootstrapping::{CircuitBootstrappingEncryptionInfos, CircuitBootstrappingExecute, CircuitBootstrappingKey, CircuitBootstrappingKeyLayout, CircuitBootstrappingKeyPrepared};
 use poulpy_ckks::{CKKSMeta, layouts::{CKKSCiphertext, CKKSPlaintextVecZnx}, leveled::api::*};
 use poulpy_core::EncryptionLayout;
@@ -668,6 +668,55 @@ mod fhe_uint_ref {
     use super::*;
     type BE = poulpy_cpu_ref::FFT64Ref;
     static CTX: std::sync::LazyLock<TestContext<CGGI, BE>> = std::sync::LazyLock::new(TestContext::<CGGI, BE>::new);
+    type Prep = FheUintPrepared<DeviceBuf<BE>, u32, BE>;
+    static OPERANDS: std::sync::LazyLock<(Prep, Prep)> = std::sync::LazyLock::new(|| {
+        let ctx = &*CTX;
+        let l = ctx.ggsw_infos();
+        let enc = EncryptionLayout::new_from_default_sigma(l).unwrap();
+        let mut scratch: ScratchOwned<BE> = ScratchOwned::alloc(1 << 22);
+        let mut mk = |v: u32, s: u64| { let mut p: Prep = FheUintPrepared::alloc_from_infos(&ctx.module, &l);
+            p.encrypt_sk(&ctx.module, v, &ctx.sk_glwe, &enc, &mut src(240 + s), &mut src(250 + s), scratch.borrow()); p };
+        (mk(0x1234_5678, 0), mk(0x0fed_cba9, 1))
+    });
+    /// parameters of the two-word multi-thread record, read off the crate's test parameter set through PUBLIC queries only:
+    /// [T_BITS, max_state_size, res(6), ggsw(6), atk(6)] (the BDD circuits themselves are private to the crate)
+    pub fn bdd_params(op: i64) -> Vec<i128> {
+        let ctx = &*CTX;
+        let (gl, gg) = (ctx.glwe_infos(), ctx.ggsw_infos());
+        let atk = ctx.bdd_key.automorphism_key_infos();
+        let res: FheUint<Vec<u8>, u32> = FheUint::alloc_from_infos(&gl);
+        let glwe_bytes = GLWE::<Vec<u8>>::bytes_of_from_infos(&gl);
+        let (slot, pack) = (32 * glwe_bytes, ctx.module.glwe_pack_tmp_bytes(&gl, &atk));
+        let st = if op == 0 { res.add_tmp_bytes(&ctx.module, &gl, &gg, &ctx.bdd_key) } else { res.slt_tmp_bytes(&ctx.module, &gl, &gg, &ctx.bdd_key) };
+        let cmux0 = ctx.module.execute_bdd_circuit_tmp_bytes(&gl, 0, &gg);
+        // per-thread size = single-thread size minus the output slots when the BDD arena dominates the packing; otherwise the
+        // state size is searched through the public per-thread query
+        let per = st - slot;
+        let state = if per > pack { (per - cmux0) / (2 * glwe_bytes) } else { 0 };
+        assert!(per > pack && ctx.module.execute_bdd_circuit_tmp_bytes(&gl, state, &gg) == per,
+                "c12: cannot read max_state_size off the public size queries (per = {per}, pack = {pack})");
+        let mut v: Vec<i128> = vec![32, state as i128];
+        v.extend([gl.base2k.0 as i128, gl.k.0 as i128, gl.rank.0 as i128, gl.rank.0 as i128, 0, 1]);
+        v.extend([gg.base2k.0 as i128, gg.k.0 as i128, gg.rank.0 as i128, gg.rank.0 as i128, gg.dnum.0 as i128, gg.dsize.0 as i128]);
+        v.extend([atk.base2k.0 as i128, atk.k.0 as i128, atk.rank_out.0 as i128, atk.rank_in.0 as i128, atk.dnum.0 as i128, atk.dsize.0 as i128]);
+        v
+    }
+    /// 187: FheUint two-word operation through its `_multi_thread` entry point on a scratch of EXACTLY `<op>_multi_thread_tmp_bytes`
+    /// bytes [be n=256 | op (0 add, 5 slt) threads T_BITS max_state_size res(6) ggsw(6) atk(6)]
+    pub fn bdd_mt(mode: i64, p: &[i128]) -> Vec<i128> {
+        let ctx = &*CTX;
+        let (op, threads) = (p[2], u(p[3]));
+        let (gl, gg) = (ctx.glwe_infos(), ctx.ggsw_infos());
+        let r0: FheUint<Vec<u8>, u32> = FheUint::alloc_from_infos(&gl);
+        let need = if op == 0 { r0.add_multi_thread_tmp_bytes(&ctx.module, threads, &gl, &gg, &ctx.bdd_key) }
+                   else { r0.slt_multi_thread_tmp_bytes(&ctx.module, threads, &gl, &gg, &ctx.bdd_key) };
+        let (a, b) = (&OPERANDS.0, &OPERANDS.1);
+        let mut f = |s: &mut Scratch<BE>| -> Vec<u8> {
+            let mut res: FheUint<Vec<u8>, u32> = FheUint::alloc_from_infos(&gl);
+            if op == 0 { res.add_multi_thread(threads, &ctx.module, a, b, &ctx.bdd_key, s); } else { res.slt_multi_thread(threads, &ctx.module, a, b, &ctx.bdd_key, s); }
+            res.to_ref().data().data.to_vec() };
+        match mode { 0 => formula_only::<BE>(need, &mut f), 1 => exact_once::<BE>(need, &mut f), _ => exact_twice::<BE>(need, &mut f) }
+    }
     pub fn run(op: i64, p: &[i128]) -> Vec<i128> {
         let ctx = &*CTX;
         let (threads, start, count) = (u(p[2]), u(p[3]), u(p[4]));
@@ -802,6 +851,10 @@ fn run(r: &Rec) -> Vec<Vec<i128>> {
     let be = r.ps[0] as i64;
     let (mode, op) = if r.code < 12500 { (0, r.code - 12000) } else if r.code < 12700 { (1, r.code - 12500) } else { (2, r.code - 12700) };
     let p: &[i128] = &r.ps;
+    if op == 187 {
+        assert!(be == 1, "c12: FheUint operations run on FFT64Ref");
+        return vec![fhe_uint_ref::bdd_mt(mode, p)];
+    }
     if op == 185 || op == 186 {
         assert!(be == 1 && mode == 2, "c12: fhe_uint preparation runs on FFT64Ref, independence phase only");
         return vec![fhe_uint_ref::run(op, p)];
@@ -1019,6 +1072,17 @@ pub fn generate(tier: &str, seed: u64) -> Vec<Rec> {
                         let mut v = vec![be, n]; v.extend(&inf(rb, rk, rank, rank, 0, 1)); v.extend(&inf(ab, ak, rank, rank, 0, 1)); v.extend(&inf(gb, gk, rank, rank, dnum, dsize));
                         v.push(variant);
                         g.push(184, v, true, true);
+                    }
+                }
+            }
+            if n == 16 && be == 1 {
+                // FheUint add / slt through the multi-thread entry point, exact multi-thread size query; thread counts around the
+                // points where ceil(32 / ceil(32 / threads)) differs from threads
+                for &op in &[0i64, 5] {
+                    let bp = fhe_uint_ref::bdd_params(op);
+                    for &th in &[1i128, 2, 3, 4, 5, 8, 9, 12, 16, 17, 31, 32, 33] {
+                        let mut v = vec![be, 256, op as i128, th]; v.extend(&bp);
+                        g.push(187, v, true, true);
                     }
                 }
             }
